@@ -10,6 +10,8 @@ func c02(c *Ctx) {
 		"(prefix) when the key has an output prefix field, every success return is dominated by an exact comparison of the input's leading bytes with the whole prefix; " +
 		"(tiling) the pieces sliced from the input tile it — no trailing bytes are silently ignored, so extensions cannot be accepted; " +
 		"(bounds) every loop-invariant slice/index expression on ciphertext-derived data, also in callees (depth 3), is proved in bounds from the dominating length guards by a linear-arithmetic prover — no input can cause an out-of-range panic there. " +
+		"(noleak) no return hands back a non-nil plaintext together with an error that may be non-nil (pairs forwarded from callees judged recursively); " +
+		"(errstate) methods of a primitive that can be built in an error state (error field, nil collaborators) call through their interface-typed fields only where that error is nil — the object fails with its error instead of panicking; " +
 		"(lenwidth) no message- or associated-data-length-derived value is narrowed to 32 bits or fewer without a dominating bound (the AD-length field of encrypt-then-MAC must not wrap); " +
 		"Not decided: that MAC/GHASH values themselves are right; block-loop indexing (listed as outside-rule); the stdlib's Open."
 	ac := newAcceptCtx(c)
@@ -26,6 +28,7 @@ func init() {
 	Registry["C02"] = func(c *Ctx) {
 		prev(c)
 		narrowingRule(c, "C02.lenwidth", map[string]bool{"aead/aesctrhmac": true, "aead/subtle": true, "aead": true, "internal/aead": true, "aead/aesgcm": true, "aead/aesgcmsiv": true, "aead/xaesgcm": true, "aead/chacha20poly1305": true, "aead/xchacha20poly1305": true}, 0)
+		errState(c, "C02.errstate", map[string]bool{"aead": true}, 2)
 		if c.R.Counts["length_narrowings"] < 2 {
 			c.R.AnchorMissing("C02.lenwidth", "positive control: the two known key-length narrowings in the AEAD constructors were not seen")
 		}
